@@ -6,6 +6,52 @@ import os
 ROOT = os.path.dirname(os.path.dirname(os.path.abspath(__file__)))
 
 CHECKS = {
+    'C01': dict(
+        category='exploration',
+        text=('Every program returned by the real generator (4 languages x 16 switch combinations; seed mode at default and reduced '
+              'limits, Hypothesis-tape mode at small limits with shrinking) is judged by an independent reference type checker on every '
+              'initialiser, call/constructor/super argument, array element, function and lambda result, conditional branch, assignment, '
+              'explicit type argument bound and class obligation; violations are attributed to the producing gen_* routine.'),
+        design_ref='DESIGN.md §3 C01, §2.4',
+        note='Trusts RC/RM (calibrated against javac through C02); no Kotlin/Groovy/Scala compiler is installed.',
+        technique='property-based testing of the generator against a reference type checker (differential oracle)',
+    ),
+    'C02': dict(
+        category='translation_validation',
+        text=('Java translations of generated programs (stage G and after TypeErasure) are compiled by the installed javac alone and in '
+              'random batches mixed with type-overwriting victims; oracle: no error for a G/E file, and alone-verdict == batch-verdict.'),
+        design_ref='DESIGN.md §3 C02',
+        note='javac 17 is the judge; its own diagnostics are parsed by vlib/jd.py, not by src/compilers.',
+        technique='differential / metamorphic testing against the real compiler (javac) on generated programs',
+    ),
+    'C03': dict(
+        category='exploration',
+        text=('TypeErasure applied once and twice to generated programs: structural before/after diff must stay inside the whitelist of '
+              'removable annotations, and the reference checker in inference mode (removed annotations replaced by what a compiler infers) '
+              'must accept the result; Java results are additionally compiled by javac in C02.'),
+        design_ref='DESIGN.md §3 C03',
+        note='The inference model of RC is first-order (documented in ASSUMPTIONS); only Java has a real compiler as second judge.',
+        technique='metamorphic property testing of the mutation: whitelist structural diff + reference checker in inference mode',
+    ),
+    'C04': dict(
+        category='exploration',
+        text=('TypeOverwriting re-rolled under several RNG seeds on pickled copies of generated and erased programs: exactly one declared '
+              'type slot differs, old/new unrelated in the reference relation and under the language conversions, message names both types, '
+              'the reference checker (and javac for Java) rejects the mutant, translation changed; untouched when nothing is reported.'),
+        design_ref='DESIGN.md §3 C04',
+        note='RM/RC and javac are the judges of "a correct type checker must reject".',
+        technique='metamorphic property testing of the mutation with a reference relation and the real compiler as judges',
+    ),
+    'C05': dict(
+        category='exploration',
+        text=('Independent lexical scope / member resolver over every generated program: every name use resolves to a visible declaration, '
+              'arities admit the arguments, only non-final variables/fields are assigned, only regular classes instantiated, type variables '
+              'in scope, identifiers unique per scope and not reserved; plus an exhaustive enumeration of the whole word pool x 3 emitted '
+              'forms x 4 languages against the keyword files and the language specifications.'),
+        design_ref='DESIGN.md §3 C05',
+        note='Scope rules are those of the target languages as mirrored by RC; the word-pool sub-check is exhaustive.',
+        technique='property-based testing with a reference scope resolver + exhaustive enumeration of the identifier pool',
+    ),
     'C11': dict(
         category='exploration',
         text=('Hypothesis-drawn histories of translate / fresh-translator / set-package operations over a pool of generated, erased and '
